@@ -21,7 +21,6 @@ import (
 	"strconv"
 	"strings"
 	"testing"
-	"time"
 
 	"github.com/go-spatial/geom"
 	"github.com/pdok/texel/internal/gpkgh"
@@ -480,10 +479,16 @@ func genTable(r *simrt.RNG, used map[string]bool, srs gpkgh.SRS, t tms20.TileMat
 		switch rowType {
 		case gpkgh.TPolygon:
 			row.Geom = &gpkgh.G{T: gpkgh.TPolygon, L: genPolygon(r, t, g, w.IDs, w.IgnoreOut && r.Chance(0.1))}
+			if r.Chance(0.04) {
+				row.Geom = &gpkgh.G{T: gpkgh.TPolygon, L: [][][2]float64{}} // POLYGON EMPTY: the library returns nothing for it
+			}
 		case gpkgh.TMultiPolygon:
 			mp := &gpkgh.G{T: gpkgh.TMultiPolygon}
 			for p, np := 0, 1+r.Intn(3); p < np; p++ {
 				mp.M = append(mp.M, genPolygon(r, t, g, w.IDs, w.IgnoreOut && r.Chance(0.08)))
+			}
+			if r.Chance(0.04) {
+				mp.M = [][][][2]float64{} // MULTIPOLYGON EMPTY
 			}
 			row.Geom = mp
 		default:
@@ -780,7 +785,43 @@ func buildModel(w *twork, srcDump *gpkgh.FileDump) modelResult {
 			m.tables[id] = append(m.tables[id], per[id])
 		}
 	}
+	// the earlier run of the tool (prepare) snaps the first half of every table with a subset
+	// of the ids; the library may panic for that subset although it does not for the full list
+	if ids := earlierIDs(w); w.Existing == "earlier-run" && len(ids) > 0 {
+		ew := *w
+		ew.IDs = ids
+		for ti := range w.Source.Tables {
+			t := &w.Source.Tables[ti]
+			if !t.Spatial {
+				continue
+			}
+			for ri, row := range t.Rows[:len(t.Rows)/2] {
+				if row.Geom == nil || (row.Geom.T != gpkgh.TPolygon && row.Geom.T != gpkgh.TMultiPolygon) {
+					continue
+				}
+				parts := row.Geom.M
+				if row.Geom.T == gpkgh.TPolygon {
+					parts = [][][][2]float64{row.Geom.L}
+				}
+				if _, panicked := snapParts(&ew, parts); panicked != "" {
+					m.skip = fmt.Sprintf("snap.SnapPolygon itself panics on source row %d of %s with the ids of the earlier run %v: %s", ri, t.Name, ids, panicked)
+					return m
+				}
+			}
+		}
+	}
 	return m
+}
+
+// earlierIDs: the ids the earlier run of the tool is given (existing == "earlier-run").
+func earlierIDs(w *twork) []int {
+	var ids []int
+	for _, id := range w.IDs {
+		if w.ExistingMask>>(uint(id)%64)&1 == 1 {
+			ids = append(ids, id)
+		}
+	}
+	return ids
 }
 
 // ------------------------------------------------------------------------------------
@@ -946,13 +987,7 @@ func prepare(w *twork, seed uint64, dir string) prepared {
 		p.expectedFiles["source_old.gpkg"] = true
 		ew := *w
 		ew.Overwrite = false
-		var ids []int
-		for _, id := range w.IDs {
-			if w.ExistingMask>>(uint(id)%64)&1 == 1 {
-				ids = append(ids, id)
-			}
-		}
-		if len(ids) > 0 {
+		if ids := earlierIDs(w); len(ids) > 0 {
 			ew.IDs = ids
 			p.earlierArgs = buildArgs(&ew, oldSrc, p.target)
 		}
@@ -1255,13 +1290,22 @@ func TestVerifToolsim(t *testing.T) {
 	defer out.Close()
 	runLog := simh.NewRunLog(job.Out + ".log")
 	log.SetOutput(runLog)
+	if job.Engine == "toolsim" {
+		// all simulated runs of this process in ONE bubble (see simh.InBubble)
+		simh.InBubble(t, func() { toolsimMain(t, job, out, runLog) })
+		return
+	}
+	toolsimMain(t, job, out, runLog)
+}
+
+func toolsimMain(t *testing.T, job *simh.Job, out *simh.Out, runLog *simh.RunLog) {
 	mode := map[string]string{"explore": "sim", "selftest": "sim", "race": "free", "binary": "binary"}[job.Mode]
 	switch job.Mode {
 	case "explore", "selftest", "race", "binary":
 		sum := simh.NewSummary("toolsim", job.Mode, job.SeedLo)
 		digests := simh.NewDigestSet(2000000)
 		dl := simh.NewDeadline(job.BudgetS)
-		t0 := time.Now()
+		t0 := simh.RealNow()
 		for seed := job.SeedLo; seed < job.SeedHi; seed++ {
 			if dl.Expired() {
 				break
@@ -1333,7 +1377,7 @@ func TestVerifToolsim(t *testing.T) {
 		}
 		simh.WriteDigests(job.Out+".digests", digests.Slice())
 		sum.DigestsTotal = int64(digests.Len())
-		sum.WallS = time.Since(t0).Seconds()
+		sum.WallS = simh.RealNow().Sub(t0).Seconds()
 		out.Line(sum)
 	case "candidates":
 		for i, raw := range job.Candidates {
